@@ -263,7 +263,8 @@ func runC14Rogue(idx int, rc *c14RogueCase) c14RogueResult { //nolint:cyclop,goc
 	if s, ok := env.cstore.snapshot()[env.ckey]; ok {
 		res.StoreAfter = env.symOf(s.ID) + "/" + env.symOf(s.Secret)
 	}
-	sameSecret := len(offered.ID) > 0 && bytes.Equal(offered.ID, sid) && bytes.Equal(offered.Secret, secret)
+	// an EMPTY secret is no secret: a peer that keys its Finished with it holds nothing (Resumption.tla: cms \notin {None, "E"})
+	sameSecret := len(offered.ID) > 0 && bytes.Equal(offered.ID, sid) && bytes.Equal(offered.Secret, secret) && len(secret) > 0
 	res.Control = sameSecret && res.CEst
 	got := "running"
 	if res.CEst {
@@ -527,7 +528,7 @@ func runC14RogueClient(idx int, rc *c14RogueCase) c14RogueResult { //nolint:cycl
 	for i := 0; i < r.net.Emitted("s2c"); i++ {
 		res.ClientSent = append(res.ClientSent, r.net.Dgram("s2c", i).tag)
 	}
-	sameSecret := len(held.ID) > 0 && bytes.Equal(held.Secret, secret)
+	sameSecret := len(held.ID) > 0 && bytes.Equal(held.Secret, secret) && len(secret) > 0
 	res.Control = sameSecret && res.CEst
 	got := "running"
 	if res.CEst {
